@@ -909,6 +909,41 @@ class _AttrConst(ast.NodeTransformer):
         return node
 
 
+def _split_new_divmod(fi, ref_fingerprints, stats):
+    """A new statement `q, r = divmod(x, k)` is `r = x % k; q = x // k` (in an order that reads x before re-binding it)."""
+    from . import alpha
+
+    locs = alpha.local_names(fi.node)
+    done = 0
+    for n in list(walk_function(fi.node)):
+        if not (isinstance(n, ast.Assign) and len(n.targets) == 1 and isinstance(n.targets[0], ast.Tuple) and len(n.targets[0].elts) == 2 and all(isinstance(t, ast.Name) for t in n.targets[0].elts)):
+            continue
+        v = n.value
+        if not (isinstance(v, ast.Call) and isinstance(v.func, ast.Name) and v.func.id == "divmod" and len(v.args) == 2 and not v.keywords and _value_like(v.args[0]) and _value_like(v.args[1])):
+            continue
+        if alpha._fingerprint(n, locs)[0] in ref_fingerprints:
+            continue
+        blk, _o = _block_of(n)
+        if blk is None:
+            continue
+        q, r = n.targets[0].elts
+        x, k = v.args
+        used = _names_used(x) | _names_used(k)
+        sq = ast.Assign(targets=[ast.Name(id=q.id, ctx=ast.Store())], value=ast.BinOp(left=_clone(x), op=ast.FloorDiv(), right=_clone(k)), type_comment=None)
+        sr = ast.Assign(targets=[ast.Name(id=r.id, ctx=ast.Store())], value=ast.BinOp(left=_clone(x), op=ast.Mod(), right=_clone(k)), type_comment=None)
+        if q.id in used and r.id in used:
+            continue
+        seq = [sr, sq] if q.id in used else [sq, sr]
+        for s_ in seq:
+            ast.copy_location(s_, n)
+            ast.fix_missing_locations(s_)
+        i = [j for j, y in enumerate(blk) if y is n][0]
+        blk[i : i + 1] = seq
+        stats.setdefault("#divmod", []).append(fi.qual)
+        done += 1
+    return done
+
+
 def _unroll_new_loops(fi, ref_fingerprints, module_consts, stats):
     from . import alpha
 
@@ -1074,6 +1109,8 @@ def normalise(prog, ref):
             mc = mconsts[fi.module.name] = _module_consts(fi.module)
         try:
             if _unroll_new_loops(fi, ref_fps, mc, stats):
+                set_parents(fi.node)
+            if _split_new_divmod(fi, ref_fps, stats):
                 set_parents(fi.node)
             for _round in range(3):
                 k = _propagate_temps(fi, ref_locals, stats)
